@@ -42,6 +42,7 @@ SUBJ = {
  "F53": "the error for a rule that does not exist listed the known rule names in hash order",
  "F54": "a key capture that shares its name with a `let` variable",
  "F55": "the CloudFormation console reporter hit unreachable!() for a resource whose name starts with",
+ "F57": "a list index beyond the i32 range wrapped around",
  "F31": "`test` listed the rules of a test case in a different order",
 }
 log = subprocess.run(["git", "-C", "/repo", "log", "--format=%h %s"], capture_output=True, text=True).stdout.splitlines()
